@@ -8,6 +8,8 @@ package c10rt
 import (
 	"encoding/json"
 	"fmt"
+	"github.com/rs/zerolog"
+	stdlog "log"
 	"os"
 	"reflect"
 	"runtime"
@@ -18,6 +20,7 @@ import (
 	"testing"
 	"time"
 	"unsafe"
+	"verif/harness/watch"
 
 	"github.com/rs/zerolog/diode"
 	"pgregory.net/rapid"
@@ -423,4 +426,89 @@ func bitsOf(x uint64) int {
 		b++
 	}
 	return b
+}
+
+// TestStdLogProducers: the diode as the output of the standard library's logger, the use its README names
+// (directly, through a log.Logger of the program's own, and through a zerolog.Logger that the standard
+// logger writes to): 40 lines into a ring of 4 whose destination is held up, so the ring laps many times.
+// Every log.Print call must return (the diode's Write never waits for anybody); what reaches the
+// destination afterwards is a subset of what was printed, in order. A producer that has not returned after
+// 20 s is judged by its goroutine state (package watch): waiting for a lock inside diode.Write is a Write
+// that blocks.
+func TestStdLogProducers(t *testing.T) {
+	defer stdlog.SetOutput(os.Stderr)
+	defer stdlog.SetFlags(stdlog.Flags())
+	for _, poller := range []bool{false, true} {
+		for _, via := range []string{"log.SetOutput(diode)", "log.New(diode)", "log.SetOutput(zerolog.New(diode))"} {
+			dst := &gatedSink{gate: make(chan struct{})}
+			poll := time.Duration(0)
+			if poller {
+				poll = 200 * time.Microsecond
+			}
+			var amu sync.Mutex
+			reported := 0
+			dw := diode.NewWriter(dst, 4, poll, func(m int) { amu.Lock(); reported += m; amu.Unlock() })
+			print := stdlog.Print
+			switch via {
+			case "log.SetOutput(diode)":
+				stdlog.SetFlags(0)
+				stdlog.SetOutput(dw)
+			case "log.New(diode)":
+				print = stdlog.New(dw, "", 0).Print
+			default:
+				stdlog.SetFlags(0)
+				stdlog.SetOutput(zerolog.New(dw))
+			}
+			key := fmt.Sprintf("std log producers poller=%v via %s", poller, via)
+			rec.Case([]byte(key), true, "stdlog")
+			v := watch.Run(20*time.Second, "diode.Writer.Write(", func() {
+				for k := 0; k < 40; k++ {
+					print(message(0, k, 24))
+				}
+			})
+			bad := ""
+			if !v.Done {
+				// (the standard logger's lock is held by the stuck call: nothing here may touch that logger again,
+				// so the process ends right away)
+				if v.Blocked {
+					bad = fmt.Sprintf("a log.Print call never returns: its goroutine waits in %s inside the diode's Write (%s)", v.State, v.Stack)
+					ev.SaveReplay("C10-realrt-stdlog", map[string]interface{}{"poller": poller, "via": via, "ring_size": 4, "lines": 40})
+					fmt.Printf("VERIF-FAIL: [%s] %s\n", key, bad)
+					fmt.Printf("--- FAIL: TestStdLogProducers\n")
+					rec.Flush()
+					os.Exit(1)
+				}
+				fmt.Printf("HARNESS-ERROR: [%s] 40 log.Print calls took more than 20 s without being blocked on a lock\n", key)
+				os.Exit(2)
+			}
+			stdlog.SetOutput(os.Stderr)
+			if bad == "" {
+				close(dst.gate)
+				closed := make(chan struct{})
+				go func() { dw.Close(); close(closed) }()
+				select {
+				case <-closed:
+				case <-time.After(20 * time.Second):
+					t.Fatalf("HARNESS-ERROR: [%s] Close did not return within 20 s (C12's subject)", key)
+				}
+				dst.mu.Lock()
+				last := -1
+				for _, m := range dst.got {
+					var p, k int
+					if n, _ := fmt.Sscanf(strings.TrimPrefix(m, `{"message":"`), "p%d-%d|", &p, &k); n != 2 || k <= last || k >= 40 {
+						bad = fmt.Sprintf("destination received %.60q after message %d", m, last)
+						break
+					}
+					last = k
+				}
+				dst.mu.Unlock()
+			}
+			if bad != "" {
+				ev.SaveReplay("C10-realrt-stdlog", map[string]interface{}{"poller": poller, "via": via, "ring_size": 4, "lines": 40})
+				fmt.Printf("VERIF-FAIL: [%s] %s\n", key, bad)
+				t.Fatalf("[%s] %s", key, bad)
+			}
+		}
+	}
+	rec.Exhaustive("{waiter, poller} x {log.SetOutput(diode), log.New(diode), log.SetOutput(zerolog.New(diode))}: 40 lines through a ring of 4 with the destination held up")
 }
